@@ -120,6 +120,25 @@ def programs(seed, count):
     return "\n".join(lines) + "\n", cfgs
 
 
+def oneshot_programs(seed, count):
+    """Programs whose pre-subscribed observers include one-shot ones (they invalidate themselves through SelfView at the end
+    of their first delivery) and whose threads only read: notify / exists / depth. Kept apart from programs(): on the
+    pinned tree these run into the recorded finding F12 (lazy removal of an invalidated observer under the READ lock)."""
+    rnd = random.Random("cr1-%s" % seed)
+    lines, cfgs = [], {}
+    for n in range(count):
+        k = rnd.choice(["a", "b", "a/b"])
+        pre = ["V%s#1" % k] + (["S%s#2" % k] if rnd.random() < 0.5 else []) + (["V%s#3" % k] if rnd.random() < 0.3 else [])
+        ths = []
+        for w in range(rnd.randrange(2, 4)):
+            ths.append(",".join(rnd.choice(["N" + k, "N" + k, "Nr:.*", "Nr:.*/r:.*", "E" + k, "D"]) for _ in range(rnd.randrange(1, 3))))
+        cfg = "prog=%s;%s seed=%d stay=1 stayden=2" % (",".join(pre), ";".join(ths), rnd.randrange(1, 2 ** 31))
+        xid = "o%d" % n
+        lines += ["X %s %s" % (xid, cfg), "E"]
+        cfgs[xid] = cfg
+    return "\n".join(lines) + "\n", cfgs
+
+
 def events(recs):
     out = []
     for r in recs:
@@ -156,6 +175,20 @@ def check(pid, tier, seed):
         nx = info.get("next") or {}
         verdict.violation("concrouter@%s(op=%s,id=%s)" % (nx.get("e"), nx.get("op"), nx.get("id")), {"matched": info["matched"], "next": nx},
                           {"component": "concrouter", "xid": x, "cfg": cfgs[x], "events": info["events"]})
+    # one-shot observers (see oneshot_programs): only crashes / sanitizer reports are judged here
+    import re as _re
+    os_script, os_cfgs = oneshot_programs(seed, {"quick": 120, "thorough": 3000}[tier])
+    os_res = common.run_harness(exe, os_script)
+    for x, cfg in os_cfgs.items():
+        crash = next((r for r in os_res.get(x, []) if r.get("e") == "Crash"), None)
+        if crash is None:
+            continue
+        err = " ".join(crash.get("stderr", "").split())
+        m = _re.search(r"AddressSanitizer: ([\w-]+)", err)
+        fn = _re.search(r"#\d+ 0x[0-9a-f]+ in (tulz::[\w:<>~]+)", err)
+        what = "%s in %s" % (m.group(1) if m else "signal %s" % crash.get("sig"), (fn.group(1) if fn else "?"))
+        verdict.violation("concrouter[one-shot observer]@Crash(%s)" % what, err[:400],
+                          {"component": "concrouter", "xid": x, "cfg": cfg, "events": events(os_res.get(x, []))})
     overlapping = 0
     for e in execs.values():
         depth = 0
